@@ -179,9 +179,19 @@ func (x *Unit) sp(st *State, e ast.Expr, c *specCtx) Val {
 	return Val{x.fresh("bad", SInt), nil}
 }
 
+// importAlias: per package, which import path a package name stands for in its contract file ("use" directive).
+var importAlias = map[string]map[string]string{}
+
 func findImport(pkg *types.Package, name string) *types.Package {
 	if pkg == nil {
 		return nil
+	}
+	if path, ok := importAlias[pkg.Path()][name]; ok {
+		for _, p := range pkg.Imports() {
+			if p.Path() == path {
+				return p
+			}
+		}
 	}
 	for _, p := range pkg.Imports() {
 		if p.Name() == name {
